@@ -20,9 +20,7 @@ NOT_APPLICABLE = {}
 
 PROPS = {
     'C17': {
-        'level_text': 'Round-trip, minimality and length theorems proved in Coq for all values/byte strings on Gallina '
-                      'mirrors of the (de)serialisers; mirrors tied to the Go code by differential runs on generated and '
-                      'mutated inputs every run. Proof is the right level: the property quantifies over all values.',
+        'level_text': 'Round-trip, minimality and length theorems (21) proved in Coq for all values/byte strings on Gallina mirrors of the (de)serialisers; mirrors tied to the Go code by differential runs every run on generated, mutated and boundary inputs (TLV lengths 65531..65535, 64 kB fields, empty and all-zero MPI lists).',
         'level_note': 'Trusted: Coq kernel/VM; the mirrors are hand-written and tied to the code only by the correspondence '
                       'check (bounded by the generator); libotr key file covered by correspondence + oracle, not yet by theorem.',
         'trusted': ['bytes are modelled as list N with every element < 256 (wfb); Go slices aliasing is not modelled'],
@@ -38,10 +36,8 @@ PROPS = {
         'assumptions': ['payload contains no comma (true of every encoded OTR message: base64 + "?OTR:" + ".")'],
     },
     'C15': {
-        'level_text': 'Theorems: the routing helper returns exactly (receiver, sender) tags for every v3 encoded message and every v3 '
-                      'fragment prefix, and none for v2 (all tag values, all bodies); conversation-level tag isolation theorems '
-                      'on the conversation model. Mirror tied to the code every run.',
-        'level_note': 'base64 mirrored and proved to round-trip; conversation-level part relies on the conversation model correspondence.',
+        'level_text': 'Theorems: the routing helper returns exactly (receiver, sender) tags for every v3 encoded message and every v3 fragment prefix, and none for v2 (all tag values, all bodies); C15_foreign_instance_ignored - on the conversation machine a v3 message whose receiver tag is neither zero nor ours, or whose sender tag is not the instance the conversation is bound to, is dropped before its body is looked at, whatever its type and content. Every run, compared with the machine: fresh conversation x tag classes, bound conversation in six phases x a third instance, tag sweep over the key exchange; isolation oracle (foreign message has no effect, the genuine peer keeps working, the binding survives End).',
+        'level_note': 'base64 mirrored and proved to round-trip; differential tie.',
         'trusted': ['encoding/base64 mirrored in Bytes/B64.v'],
         'assumptions': [],
     },
@@ -61,22 +57,22 @@ PROPS = {
         'targets': ['Corr/Dispatch.vo', 'Proto/Run.vo'],
     },
     'C04': {
-        'level_text': 'Proved: mirrored session keys for every pair of distinct DH values, text survives pad/serialise/parse unchanged; the two-party FIFO delivery invariant (fifo_delivery) is work in progress and is currently covered by the correspondence runs (random interleavings, ticks, rotations) plus the sequence oracle.',
-        'level_note': 'partial: the all-interleavings theorem is not yet proved; the evidence lists the theorems actually discharged.',
+        'level_text': 'Proved: mirrored session keys for every pair of distinct DH values; text survives pad/serialise/parse unchanged; (with C05) an accepted message is never accepted again over any history. Every run: random interleavings of sends and FIFO deliveries with ticks and rotations, fragmenting senders whose piece size divides the encoded length exactly, compared step by step with the machine; oracle: per direction the plaintext sequence received equals the sequence sent.',
+        'level_note': 'partial: the theorem that under FIFO delivery every genuine message is accepted (two-party ratchet invariant) is not proved; that direction rests on the correspondence runs and the sequence oracle.',
         'trusted': ['the conversation model is symbolic: DH values are exponent ids, shared secrets unordered pairs, keys (secret, role) terms, a MAC verifies iff it was computed with the same key over the same fields (perfect-cryptography idealisation)', 'internal projections (key ids, list lengths, state names) are read through the verif-tagged hook VerifSnapshot'],
         'assumptions': ['DH values drawn are pairwise distinct'],
         'targets': ['Corr/Dispatch.vo', 'Proto/Run.vo'],
     },
     'C05': {
-        'level_text': 'Theorems for all states/messages: an accepted message is refused when it arrives again whatever rotation it caused; counter check monotone per key pair and independent across pairs. Correspondence + replay oracle (immediate, after traffic, out of order, later session) every run.',
+        'level_text': 'Theorems: C05_accepted_at_most_once - for EVERY history of receptions (accepted or not) and sends that follows the acceptance of a data message, with any number of key rotations on either side, the same message is refused (invariant: its key pair has left the window or the recorded counter covers it; induction over the history); counter check monotone per key pair and independent across pairs. Correspondence + replay oracle (immediate, after traffic, out of order, later session) every run.',
         'level_note': 'replay in a later session relies on new DH values giving different MAC keys (symbolic injectivity).',
         'trusted': ['the conversation model is symbolic: DH values are exponent ids, shared secrets unordered pairs, keys (secret, role) terms, a MAC verifies iff it was computed with the same key over the same fields (perfect-cryptography idealisation)', 'internal projections (key ids, list lengths, state names) are read through the verif-tagged hook VerifSnapshot'],
         'assumptions': ['injectivity of key derivation'],
         'targets': ['Corr/Dispatch.vo', 'Proto/Run.vo'],
     },
     'C06': {
-        'level_text': 'Theorem for all conversations/messages: a data message failing any check leaves the conversation record identical (apart from flushing pending replies); the AKE/tag/version branches are covered by the with/without twin-run oracle and the correspondence every run.',
-        'level_note': 'partial: inertness is proved for the data-message branch; other reject classes are checked by twin runs, not yet by theorem.',
+        'level_text': 'Theorems for all conversations/messages: a data message failing any check (parse, key ids, MAC, counter) leaves the conversation record identical apart from flushing pending replies; in the key exchange a Signature message failing MAC / decryption / signature check, an unreadable D-H Commit while an exchange is in progress, and any v3 message for or from another instance leave it identical too. Every run, twin runs on identical seeds with / without the rejected message (all later observations equal) and comparison with the machine: data phase (11 mutation kinds at random points), key-exchange phase (AKE sweep, damaged copies of earlier messages and reflected copies at every point of the exchange, stale copies after the exchange followed by a query).',
+        'level_note': 'partial: the remaining reject classes of the key exchange (Reveal Signature, D-H Key, version mismatch) are decided by the twin runs and the correspondence, not by theorem.',
         'trusted': ['the conversation model is symbolic: DH values are exponent ids, shared secrets unordered pairs, keys (secret, role) terms, a MAC verifies iff it was computed with the same key over the same fields (perfect-cryptography idealisation)', 'internal projections (key ids, list lengths, state names) are read through the verif-tagged hook VerifSnapshot'],
         'assumptions': [],
         'targets': ['Corr/Dispatch.vo', 'Proto/Run.vo'],
@@ -89,49 +85,49 @@ PROPS = {
         'targets': ['Corr/Dispatch.vo', 'Proto/Run.vo'],
     },
     'C19': {
-        'level_text': 'Invariant theorem: counter and MAC-key lists hold at most one entry per key pair of the 2x2 window (<= 4 each) at session start and after every send and every accepted message, for arbitrary (forged, replayed) input; rejected input changes nothing (C06). Growth oracle at n, 2n, 4n on five traffic patterns.',
+        'level_text': 'Invariant theorem: counter and MAC-key lists hold at most one entry per key pair of the 2x2 window (<= 4 each) at session start and after every send and every accepted message, for arbitrary (forged, replayed) input; rejected input changes nothing (C06). Growth oracle at n, 2n, 4n on nine traffic patterns (ping-pong, one-way, forged flood, crossing, error + re-AKE, answers lost / late, refused-fragment flood, plaintext flood): retained entries and the size of the next output must not grow.',
         'level_note': 'the bound on pending (undisclosed) keys and on the resend queue is checked by the growth oracle and the correspondence, not yet by theorem.',
         'trusted': ['the conversation model is symbolic: DH values are exponent ids, shared secrets unordered pairs, keys (secret, role) terms, a MAC verifies iff it was computed with the same key over the same fields (perfect-cryptography idealisation)', 'internal projections (key ids, list lengths, state names) are read through the verif-tagged hook VerifSnapshot'],
         'assumptions': [],
         'targets': ['Corr/Dispatch.vo', 'Proto/Run.vo'],
     },
     'C01': {
-        'level_text': 'Theorems on the symbolic AKE for all messages and states: the reported peer key changes only after the m2-MAC, the decryption under c and the signature check over M (both DH values, key, key id) all passed, otherwise nothing changes; out-of-range DH values never pass; completion installs the session id / role of that exchange; mirrored session keys. Scenario correspondence every run over per-field damage, out-of-range values, truncation, re-tagging, duplicates, cross-session replay and a re-signing impersonator.',
+        'level_text': "Theorems on the symbolic AKE for all messages and states: the reported peer key changes only after the m2-MAC, the decryption under c and the signature check over M (both DH values, key, key id) all passed, otherwise nothing changes; out-of-range DH values never pass; completion installs the session id / role of that exchange; mirrored session keys. Every run, compared with the machine: the AKE sweep (every key-exchange message x 28 mutations incl. authenticated-but-unparsable X and a participant claiming somebody else's key x {before, after the genuine message} x fresh/refresh), random handshakes with cross-session replay, duplicates, a re-signing impersonator; the numeric group-range check vs the code. Oracles: an encrypted conversation reports a key whose owner's signature message it received (also right after a rejected message), the exchange completes after a rejected copy, equal ssid implies complementary halves and mutual readability.",
         'level_note': 'the global invariant over all histories (ake_auth_inv) is not yet proved as one theorem; unforgeability of DSA/HMAC is the symbolic idealisation.',
         'trusted': ['the conversation model is symbolic: DH values are exponent ids, shared secrets unordered pairs, keys (secret, role) terms, a MAC verifies iff it was computed with the same key over the same fields (perfect-cryptography idealisation)', 'internal projections (key ids, list lengths, state names) are read through the verif-tagged hook VerifSnapshot'],
         'assumptions': ['EUF-CMA of DSA and HMAC-SHA256, CDH in the 1536-bit group'],
         'targets': ['Corr/Dispatch.vo', 'Proto/Run.vo'],
     },
     'C03': {
-        'level_text': 'Theorems for every conversation state, policy set and text: Send in finished emits nothing new and fails; Send in plaintext under require-encryption emits only the query and queues the text; Send while encrypted emits only error replies or a data message whose payload is encrypted and MACed under the sending key of the current DH pair. Lifecycle histories over random policy pairs compared with the model every run; wire-search oracle (raw and base64).',
+        'level_text': 'Theorems for every conversation state, policy set and text: Send in finished emits nothing new and fails; Send in plaintext under require-encryption emits only the query and queues the text; Send while encrypted emits only error replies or a data message whose payload is encrypted and MACed under the sending key of the current DH pair. Every run, compared with the machine: directed sweep of 10 lifecycle phases x 8 actions x 5 policy sets (incl. protocol-looking texts given to Send, a further session and an error-triggered retransmission at the end) plus random lifecycles; wire-search oracle (raw and base64) for every text whenever encryption is due.',
         'level_note': 'that AES-CTR ciphertext does not reveal the text is a property of the cipher (measured by the oracle only); release of queued texts only inside data messages is covered by correspondence + oracle.',
         'trusted': ['the conversation model is symbolic: DH values are exponent ids, shared secrets unordered pairs, keys (secret, role) terms, a MAC verifies iff it was computed with the same key over the same fields (perfect-cryptography idealisation)', 'internal projections (key ids, list lengths, state names) are read through the verif-tagged hook VerifSnapshot'],
         'assumptions': ['AES-128-CTR hides the plaintext'],
         'targets': ['Corr/Dispatch.vo', 'Proto/Run.vo'],
     },
     'C07': {
-        'level_text': 'Verified exhaustive exploration: explore_sound (induction on fuel) + kernel evaluation over all single-sided start patterns and refreshes x all version-policy pairs sharing a version x both outcomes of the hash comparison: EVERY delivery schedule completes with both sides encrypted in one session. Simultaneous start is refuted by the model and the code (known finding). The same start patterns are driven on the real code with random interleavings every run.',
+        'level_text': 'Verified exhaustive exploration in Coq: explore_sound (induction on fuel) + kernel evaluation over all single-sided start patterns and refreshes x all version-policy pairs sharing a version x both outcomes of the hash comparison: EVERY delivery schedule completes with both sides encrypted in one session; simultaneous start is refuted by the model and the code (known finding). On the real code every run: stateless exploration with backtracking of every interleaving of user actions and deliveries for 11 start configurations (query by one / both, tagged message once / twice, error-triggered, require-encryption Send once / twice, asking again at once after End, refresh by one / both) x version-policy pairs; cap per configuration in the quick tier reported in the evidence.',
         'level_note': 'bound: at most one start event per side plus a refresh; clock ticks inside an exchange are not explored in Coq.',
         'trusted': ['the conversation model is symbolic: DH values are exponent ids, shared secrets unordered pairs, keys (secret, role) terms, a MAC verifies iff it was computed with the same key over the same fields (perfect-cryptography idealisation)', 'internal projections (key ids, list lengths, state names) are read through the verif-tagged hook VerifSnapshot'],
         'assumptions': [],
         'targets': ['Corr/Dispatch.vo', 'Proto/Run.vo'],
     },
     'C18': {
-        'level_text': 'Theorems: the three state changes (AKE completion, End, Send while finished) with their exact events and key/queue effects, for all states. Lifecycle histories over random policy pairs compared with the model every run; oracles: GoneSecure/GoneInsecure/StillSecure exactly on the flips of IsEncrypted, Send refuses after peer disconnect, each text received at most once plain and once marked resent.',
+        'level_text': "Theorems: the three state changes (AKE completion, End, Send while finished) with their exact events and key/queue effects, for all states. Every run, compared with the machine: the lifecycle phase sweep of C03 (incl. the peer's disconnect built without padding by the independent reference sender, a further session and a retransmission request at the end) plus random lifecycles; oracles: GoneSecure/GoneInsecure/StillSecure exactly on the flips of IsEncrypted, Send refuses after peer disconnect, each text received at most once plain and once marked resent.",
         'level_note': 'the frame property (only these places change the message state, over all branches of step) is checked by correspondence + oracle, not yet by one theorem.',
         'trusted': ['the conversation model is symbolic: DH values are exponent ids, shared secrets unordered pairs, keys (secret, role) terms, a MAC verifies iff it was computed with the same key over the same fields (perfect-cryptography idealisation)', 'internal projections (key ids, list lengths, state names) are read through the verif-tagged hook VerifSnapshot'],
         'assumptions': [],
         'targets': ['Corr/Dispatch.vo', 'Proto/Run.vo'],
     },
     'C11': {
-        'level_text': "Theorems: over any field of exponents, for non-degenerate exponents the responder's and the initiator's final comparisons hold iff the secrets are equal (ring/field proof); on the state machine, success is reported only by the handlers of messages 3 and 4. The symbolic SMP model (group elements as sign/exponent, real group order, parametric hash) is compared with the Go code every run on honest runs with equal/different secrets (empty, long, binary, one bit apart), with/without question, either initiator, repeated runs with traffic in between, v2/v3, and a relay between two separately keyed sessions.",
+        'level_text': "Theorems: over any field of exponents, for non-degenerate exponents the responder's and the initiator's final comparisons hold iff the secrets are equal (ring/field proof); on the state machine, success is reported only by the handlers of messages 3 and 4. The symbolic SMP model (group elements as sign/exponent, real group order, parametric hash) is compared with the Go code every run: six ways of establishing the session before SMP (first exchange by either side, refresh, one side lost its state, after the peer ended, double refresh), secret shapes incl. pairs differing only in white space, with/without question, either initiator, directed run sequences (failed or aborted run, then another), relay between two separately keyed sessions.",
         'level_note': "the algebra theorem is stated on the exponent form of the equations (the model's EKnown elements follow the same algebra); primality of q and the binding of the secret to fingerprints/ssid through SHA-256 are assumptions; honest-run proof verification is covered by correspondence, not by theorem.",
         'trusted': ['the conversation model is symbolic: DH values are exponent ids, shared secrets unordered pairs, keys (secret, role) terms, a MAC verifies iff it was computed with the same key over the same fields (perfect-cryptography idealisation)', 'internal projections (key ids, list lengths, state names) are read through the verif-tagged hook VerifSnapshot'],
         'assumptions': ['q prime (RFC 3526 group 5), SHA-256 collision-free, exponents not 0 mod q'],
         'targets': ['Corr/Dispatch.vo', 'Proto/Run.vo'],
     },
     'C12': {
-        'level_text': 'Theorems for all received values and states: the responder (message 3) and the initiator (message 4) report success only after every range check, both zero-knowledge proofs and the final comparison evaluated to true; no other message yields success. Refuted for version 2 (no range checks): a peer using exponent 0 obtains success without knowing the secret (kernel-evaluated witness = known finding; version 3 answers cheated). Every field of every SMP message x 8 boundary classes, miscounts, user calls in unexpected states, v2/v3, compared with the symbolic model every run; recovery oracle (fresh honest run succeeds).',
+        'level_text': 'Theorems for all received values and states: the responder (message 3) and the initiator (message 4) report success only after every range check, both zero-knowledge proofs and the final comparison evaluated to true; no other message yields success. Refuted for version 2 (no range checks; known finding). Every run: systematic plan - every message with 1, 2, 3 and all values dropped, every field x boundary classes (0, 1, p-1, p, p+1, q, random, +1) - plus random deviations, user calls in unexpected states, v2/v3, compared with the symbolic model; recovery oracle; the numeric range check vs the code.',
         'level_note': 'absence of panics under v3 and recovery are checked by correspondence + oracle (the model returns a panic outcome where ModInverse would return nil), not yet by theorem.',
         'trusted': ['the conversation model is symbolic: DH values are exponent ids, shared secrets unordered pairs, keys (secret, role) terms, a MAC verifies iff it was computed with the same key over the same fields (perfect-cryptography idealisation)', 'internal projections (key ids, list lengths, state names) are read through the verif-tagged hook VerifSnapshot'],
         'assumptions': ['generic-group idealisation for values of unknown discrete logarithm (a tainted value never satisfies an equation)'],
